@@ -136,6 +136,8 @@ _FUNCS = ["prov.serializers.provxml.ProvXMLSerializer.serialize_bundle/_derive_r
           "prov.model.sorted_attributes", "prov.serializers.provxml.deserialize/deserialize_subtree/_extract_attributes/xml_qname_to_QualifiedName (concretely, real lxml)"]
 _SHIMS = ["lxml.etree build API replaced by a recorder in Stage A; the real lxml writer and reader run in Stage B on each path witness"]
 
+PRELOAD = ("prov.model", "prov.serializers.provxml", "prov.serializers.provjson")
+
 OBLIGATIONS = [
     Obligation(name="values", fn=values, shards=_value_shards,
                desc="Stage A exhausts the paths of the XML writer for one entity with one attribute (6 name classes x 15 value kinds x 5 namespace modes x force_types), the "
